@@ -42,7 +42,7 @@ def T(k):
 
 
 class Pair:
-    def __init__(self, root, backend, split=False):
+    def __init__(self, root, backend, split=False, nested=False):
         from dvc_objects.fs.local import LocalFileSystem
 
         from dvc_data.hashfile.db import HashFileDB
@@ -73,8 +73,21 @@ class Pair:
             for k in ("data/sub/baz", "other/x", "foo"):
                 os.unlink(self.odb.oid_to_path(MD5[k]))
 
+        # nested storage prefixes: what lives below `other` is kept by a second store registered for that prefix - BEFORE the
+        # store of the root prefix is registered; the root store does not hold those objects
+        self.odb_other = None
+        if nested:
+            self.odb_other = HashFileDB(self.fs, os.path.join(root, "odb-other"))
+            for k in ["other/x"]:
+                self.odb_other.add_bytes(MD5[k], FILES[k])
+                os.unlink(self.odb.oid_to_path(MD5[k]))
+            self.odb_other.add_bytes(self.dirhash["other"], canonical_dir_bytes({k[len("other") + 1:]: MD5[k] for k in LAZY["other"]}))
+            os.unlink(self.odb.oid_to_path(self.dirhash["other"]))
+
         def new(name):
             idx = DataIndex.open(os.path.join(root, name + ".db")) if backend.startswith("sqlite") else DataIndex()
+            if self.odb_other is not None:
+                idx.storage_map.add_cache(ObjectStorage(("other",), self.odb_other))
             idx.storage_map.add_cache(ObjectStorage((), self.odb))
             if self.remote is not None:
                 idx.storage_map.add_remote(ObjectStorage((), self.remote))
@@ -190,7 +203,7 @@ def run_trace(case):
 
     root = tlc.scratch_dir("c17-")
     try:
-        pair = Pair(root, case["backend"], split=bool(case.get("split")))
+        pair = Pair(root, case["backend"], split=bool(case.get("split")), nested=bool(case.get("nested")))
 
         def other_index():
             o = DataIndex()
@@ -268,7 +281,8 @@ def sim_cases(num, depth, seed):
             a = to_json(st["act"])
             ops.append({"op": a["op"], "args": list(a["args"])})
         if ops:
-            cases.append({"id": i, "ops": ops, "backend": ["sqlite", "memory", "sqlite-reopened"][i % 3], "split": i % 4 == 1})
+            cases.append({"id": i, "ops": ops, "backend": ["sqlite", "memory", "sqlite-reopened"][i % 3], "split": i % 4 == 1,
+                          "nested": i % 4 == 3})
     return cases
 
 
@@ -291,6 +305,12 @@ def directed_cases():
     for op, args in [("FsCat", [k]) for k in FILES] + [("FsInfo", [k]) for k in keys] + [("FsLs", [d]) for d in dirs]:
         for first in ([], [{"op": "FsFind", "args": [""]}]):
             cases.append({"id": n, "ops": first + [{"op": op, "args": args}], "backend": "memory", "split": True})
+            n += 1
+    # nested storage prefixes (the store of `other` registered before the root's): every operation touching `other` first
+    for backend in ("memory", "sqlite-reopened"):
+        for op, args in [("Get", ["other/x"]), ("Ls", ["other"]), ("Iter", ["", False]), ("Iter", ["other", False]), ("FsCat", ["other/x"]),
+                         ("FsFind", [""]), ("ViewIter", ["other"]), ("ViewIter", ["all"]), ("HashDiff", []), ("FsLs", ["other"])]:
+            cases.append({"id": n, "ops": [{"op": op, "args": args}, {"op": "Iter", "args": ["", False]}], "backend": backend, "nested": True})
             n += 1
     return cases
 
